@@ -32,6 +32,71 @@ def behaviours(ctx, cfg, num, depth, name):
     return out
 
 
+def _wk(w):
+    return ",".join("%s=%d" % (k, w[k]) for k in sorted(w))
+
+
+def schedule_class(b):
+    """Class of a scripted reader schedule: (key kind, what the cap did to the reader's entry layer, outcome)."""
+    steps = b["steps"]
+    tips = [i for i, s in enumerate(steps) if s["act"]["op"] == "ReadTip"]
+    opens = [s for s in steps if s["act"]["op"] == "OpenReader"]
+    if not tips or not opens or steps[-1]["act"]["op"] != "ReadVal":
+        return None
+    tip = tips[-1]
+    rd = _wk(opens[-1]["act"]["r"])
+    k = steps[tip]["act"]["k"]
+    caps = [i for i, s in enumerate(steps) if s["act"]["op"] == "CapBegin" and i > tip]
+    if not caps:
+        return ("any", "nocap", "value")
+    pre, post = steps[caps[0] - 1]["st"], steps[-1]["st"]
+    par = {_wk(l["root"]): _wk(l["parent"]) for l in pre["layers"]}
+    x, anc = _wk(steps[caps[0]]["act"]["r"]), set()
+    while x in par:
+        anc.add(x)
+        x = par[x]
+    live = {_wk(l["root"]) for l in post["layers"]}
+    if rd == _wk(pre["disk"]["root"]):
+        c = "disk-entry"
+    elif rd in live:
+        c = "kept"
+    elif rd in anc:
+        c = "flattened"          # (a) the reader's own state went into the new base
+    else:
+        c = "dropped-fork"       # (b) the reader sits on a fork the cap drops
+    return ("slot" if k.startswith("s") else "account", c, "stale" if steps[-1]["act"]["res"] == -1 else "value")
+
+
+NEEDED = [(kind, c, "stale") for kind in ("account", "slot") for c in ("flattened", "dropped-fork")]
+
+
+def reader_schedules(ctx, num):
+    """Scripted schedules lookup -> one cap -> layer read (MCPathDBScen): accounts and slots, the cap
+    flattening the reader's own state / dropping the reader's fork, must all occur (else more are drawn)."""
+    seen, out, classes = set(), [], {}
+    for rnd in range(4):
+        res = ctx.tlc("state/MCPathDB", "state/MCPathDBScen", simulate="num=%d" % num, depth=16, tags=("MBT",), workers=2,
+                      timeout=3600, name="MBT-PathDB-schedules-%d" % rnd, extra=("-aril", str(rnd)))
+        if res.timeout or res.error:
+            raise InfraError("TLC simulation of reader schedules failed: %s\n%s" % (res.error, res.stdout[-2000:]))
+        for b in res.lines.get("MBT", []):
+            key = json.dumps([s["act"] for s in b["steps"]], sort_keys=True)
+            cl = schedule_class(b)
+            if key in seen or cl is None:
+                continue
+            seen.add(key)
+            if cl[1] == "nocap" and classes.get(cl, 0) >= 20:
+                continue
+            classes[cl] = classes.get(cl, 0) + 1
+            out.append(b)
+        if all(classes.get(c, 0) >= 3 for c in NEEDED):
+            break
+    else:
+        raise InfraError("reader schedules do not cover %s: %s" % (NEEDED, classes))
+    ctx.notes.append("reader schedules by class: " + ", ".join("%s/%s/%s=%d" % (k + (v,)) for k, v in sorted(classes.items())))
+    return out
+
+
 def run(ctx):
     drv = ctx.build("c16")
     T = 3600
@@ -43,8 +108,11 @@ def run(ctx):
             ctx.model_check("state/MCPathDB", "state/MCPathDBQuickSync", timeout=T, workers=4, name="MCPathDB-noreader")
             ctx.model_check("state/MCPathDB", "state/MCPathDBQuick", timeout=2 * T, workers=4, name="MCPathDB-reader")
     # R: behaviours with reader and flush schedules
-    bs = behaviours(ctx, "state/MCPathDBSim", ctx.pick(25, 500), 16, "MBT-PathDB")
-    bs += behaviours(ctx, "state/MCPathDBSimRd", ctx.pick(25, 500), 14, "MBT-PathDB-readers")
+    bs = behaviours(ctx, "state/MCPathDBSim", ctx.pick(20, 500), 16, "MBT-PathDB")
+    bs += behaviours(ctx, "state/MCPathDBSimRd", ctx.pick(15, 500), 14, "MBT-PathDB-readers")
+    # R: scripted reader schedules: the gate between lookupAccount/lookupStorage and layer.account/storage
+    # with one cap in between, for accounts and slots, entry layer flattened / on a dropped fork / kept
+    bs += reader_schedules(ctx, ctx.pick(150, 1500))
     bp = os.path.join(ctx.scratch, "behaviours.json")
     write_json(bp, bs)
     ctx.drive(drv, ["-mode", "replay", "-in", bp], name="c16-replay", timeout=T)
